@@ -43,6 +43,7 @@ extern double g_deadline; extern bool g_capped;
 extern std::string g_tier; extern int g_part, g_nparts;
 extern std::map<std::string, unsigned long long> g_outcomes;
 extern std::string g_align_note;
+extern bool g_asserts_live;
 inline bool thorough() { return g_tier == "thorough"; }
 inline void outcome(const std::string &s) { g_outcomes[s]++; }
 
@@ -102,7 +103,7 @@ inline void finish_stats(const char *name) {
 // write) is reported.  n == 0 is a valid zero-length block: any access reports.
 // START ALIGNMENT: operator new[] returns 16-byte aligned memory, so with off == 0 every input/output the real code sees
 // starts on an aligned address - a word-at-a-time fast path with a wrong alignment prologue would never be entered.  The
-// "align" sweep therefore re-runs the small-length part of every raw-pointer sweep with off = 1..7 (g_off_base; with
+// "align" sweep therefore re-runs the small-length part of every raw-pointer sweep with off = 1..15 (g_off_base; with
 // g_off_step != 0 successive buffers of one case get DIFFERENT offsets, so input and output alignments are decoupled).
 // The `off` bytes in front are filled with 0xA7 and must still hold it when the block is released (write before the start).
 extern unsigned g_off_base, g_off_step, g_off_cur;
@@ -110,7 +111,7 @@ extern std::string g_align_note;          // appended to every violation text wh
 inline void align_case_begin() { g_off_cur = g_off_base; }
 struct Ex {
   uint8_t *base, *p; size_t off, n;
-  void alloc(size_t n_) { off = g_off_cur & 7; g_off_cur = (g_off_cur + g_off_step) & 7; n = n_; base = new uint8_t[off + n]; if (off) memset(base, 0xA7, off); p = base + off; }
+  void alloc(size_t n_) { off = g_off_cur & 15; g_off_cur = (g_off_cur + g_off_step) & 15; n = n_; base = new uint8_t[off + n]; if (off) memset(base, 0xA7, off); p = base + off; }
   explicit Ex(size_t n_, int fill = 0xCC) { alloc(n_); if (n) memset(p, fill, n); }
   Ex(const void *src, size_t n_) { alloc(n_); if (n) memcpy(p, src, n); }
   ~Ex();
